@@ -17,7 +17,7 @@ SHARDS = {"quick": 8, "thorough": 16}
 RULE = ("every Command subclass with every constructor/attribute value in its domain (GetState x 3 temperature types, "
         "GetCapabilities x 2 pages, ToggleDisplay x beep, energy, humidity, GetProperties over all 4096 subsets of the 12 "
         "property ids in several orders, SetProperties over every non-empty subset of the 9 encodable ids with generated "
-        "values, SetState over C10's domain), sequences of 300..700 mixed commands, and every public AirConditioner operation "
+        "values, SetState over C10's domain), sequences of 300..700 mixed commands (constructed one by one or all constructed before the first is emitted), and every public AirConditioner operation "
         "against the model device under generated capability profiles. Oracle: strict independent frame parser (0xAA, length "
         "byte == len-1, appliance 0xAC, frame type 0x02 for the two write commands else 0x03, body = [documented command id ... "
         "message id, bitwise CRC-8], two's complement checksum), the model's conformance parser accepts the body, message ids "
@@ -104,8 +104,10 @@ def check_case(case: dict):
         return check_device(case)
     specs = case["specs"]
     prev_id = None
-    for spec in specs:
-        cmd = build(spec)
+    # "construct all, then emit" (what refresh() does with its command list) or "construct and emit one by one"
+    prebuilt = [build(spec) for spec in specs] if case.get("prebuild") else None
+    for idx, spec in enumerate(specs):
+        cmd = prebuilt[idx] if prebuilt is not None else build(spec)
         try:
             frame = cmd.tobytes()
         except Exception as e:
@@ -259,8 +261,8 @@ def run(ctx) -> None:
             continue
         r = random.Random(ctx.seed * 1000 + i)
         length = r.randint(300, 700)
-        specs = [r.choice(singles[:9] + singles[9:400:7]) for _ in range(length)]
-        case = {"specs": specs}
+        specs = [r.choice(singles[:9] + singles[9:400:7] + singles[-40::9]) for _ in range(length)]
+        case = {"specs": specs, "prebuild": i % 2 == 1}
         ctx.check(case, lambda c: _run_one(ctx, c))
     ctx.sweep("id-wrapping sequences", nseq, True)
 
@@ -270,7 +272,7 @@ def run(ctx) -> None:
         spec_state.map(lambda s: {"specs": [{"k": "set_state", "state": s}]}),
         st.lists(st.one_of(spec_state.map(lambda s: {"k": "set_state", "state": s}), st.sampled_from(singles[:9]),
                            st.lists(st.sampled_from(ALL_PIDS), unique=True, max_size=12).map(lambda ids: {"k": "get_props", "ids": ids})),
-                 min_size=2, max_size=12).map(lambda sp: {"specs": sp}))
+                 min_size=2, max_size=12).flatmap(lambda sp: st.booleans().map(lambda pb: {"specs": sp, "prebuild": pb})))
     ctx.hyp("set_state+short sequences", cases, lambda c: _run_one(ctx, c), ctx.n(3000, 320000))
 
     profile = st.fixed_dictionaries({"energy": st.booleans(), "humidity": st.booleans(),
